@@ -118,16 +118,19 @@ def perturb_params(params, fold=1, lower_bound=None, upper_bound=None):
                     all value less than upper_bound.
     """
     pnew = params * 2**(fold * (2*numpy.random.uniform(size=len(params))-1))
+    # Bounds are copied (None entries mean unbounded), so the caller's lists are
+    # left alone. Results are kept 1% of |bound| inside the bounds, which also
+    # works for negative bounds.
     if lower_bound is not None:
-        for ii,bound in enumerate(lower_bound):
-            if bound is None:
-                lower_bound[ii] = -numpy.inf
-        pnew = numpy.maximum(pnew, 1.01*numpy.asarray(lower_bound))
+        lower_bound = numpy.array([-numpy.inf if bound is None else bound
+                                   for bound in lower_bound], dtype=float)
+        margin = numpy.where(numpy.isfinite(lower_bound), 0.01*numpy.abs(lower_bound), 0)
+        pnew = numpy.maximum(pnew, lower_bound + margin)
     if upper_bound is not None:
-        for ii,bound in enumerate(upper_bound):
-            if bound is None:
-                upper_bound[ii] = numpy.inf
-        pnew = numpy.minimum(pnew, 0.99*numpy.asarray(upper_bound))
+        upper_bound = numpy.array([numpy.inf if bound is None else bound
+                                   for bound in upper_bound], dtype=float)
+        margin = numpy.where(numpy.isfinite(upper_bound), 0.01*numpy.abs(upper_bound), 0)
+        pnew = numpy.minimum(pnew, upper_bound - margin)
     return pnew
 
 def make_fux_table(fid, ts, Q, tri_freq):
